@@ -33,7 +33,7 @@ ATOMS: List[Atom] = [
          fields=("Neg neg", "repeated Neg negs")),
     Atom("enum_alias", defs="enum Al { option allow_alias = true; AL_A = 0; AL_B = 1; AL_C = 1; }", fields=("Al al",)),
     Atom("enum_prefixed", defs="enum Kind { KIND_UNSPECIFIED = 0; KIND_ONE = 1; KIND_TWO_WORDS = 2; }", fields=("Kind kind",)),
-    Atom("enum_keyword_members", defs="enum Kw { KW_ZERO = 0; from = 1; class = 2; None = 3; import = 4; }", fields=("Kw kw",)),
+    Atom("enum_keyword_members", defs="enum Kw { KW_ZERO = 0; from = 1; class = 2; False = 3; import = 4; }", fields=("Kw kw",)),
     Atom("enum_lowercase", defs="enum lower_enum { le_zero = 0; le_one = 1; }", fields=("lower_enum le",)),
     Atom("enum_digit_members", defs="enum Ver { VER_0 = 0; VER_1_2 = 1; VER_10 = 2; }", fields=("Ver ver",)),
     Atom("enum_name_in_middle", defs="enum Unit { UNIT_X = 0; MY_UNIT_Y = 1; }", fields=("Unit unit",)),
